@@ -214,6 +214,8 @@ class Polygon(Shape2D):
             scale (float):
                 Scale factor.
         """
+        if not scale > 0:
+            raise ValueError("The scale factor must be greater than zero.")
         self._vertices *= scale
 
     @property
